@@ -135,6 +135,8 @@ struct Ctx {
     monitors: bool,
     // an undocumented panic happened: the map may be corrupt, the history is abandoned
     abort: bool,
+    tab_allocs: u64,
+    tab_frees: u64,
 }
 
 const NSLOTS: usize = 4;
@@ -270,6 +272,8 @@ fn run_op(cx: &mut Ctx, spec: OpSpec, body: impl FnOnce(&mut Ctx) -> Out) -> Out
     let r = catch_unwind(AssertUnwindSafe(|| body(cx)));
     let c = disarm();
     cx.grave.clear();
+    cx.tab_allocs += c.allocs;
+    cx.tab_frees += c.frees;
     let out = match r {
         Ok(o) => o,
         Err(p) => Out::P(classify_panic(&*p)),
@@ -1683,6 +1687,8 @@ fn main() {
             r_const: 8,
             monitors,
             abort: false,
+            tab_allocs: 0,
+            tab_frees: 0,
         };
         // R is read from the implementation
         let probe: Map = Map::with_hasher(HB { kind: 0, id: 0 });
@@ -1713,6 +1719,9 @@ fn main() {
         let live = LIVE.with(|l| l.borrow().len());
         if cx.monitors && live != cx.stats.get("forgotten").cloned().unwrap_or(0) as usize && cx.stats.get("forgotten").is_none() && live != 0 {
             vio("C06", format!("{} objects still alive after every map and iterator was dropped", live));
+        }
+        if cx.monitors && cx.stats.get("forgotten").is_none() && cx.tab_allocs != cx.tab_frees {
+            vio("C06", format!("{} table allocations but {} deallocations by the end of the history (every map and iterator dropped)", cx.tab_allocs, cx.tab_frees));
         }
         LIVE.with(|l| l.borrow_mut().clear());
         for (p, m) in PEND.with(|p| std::mem::take(&mut *p.borrow_mut())) {
